@@ -311,6 +311,60 @@ def plan_crafted(ctx, files, fi, f):
     return [(fi, ops[k], descs[k]) for k in (0, 1) if ops[k]]
 
 
+def independent_files(ctx, quick):
+    """(A) Files whose integrity does not rest on the library agreeing with itself.
+    (i) hand-assembled Streams (LZMA2 uncompressed chunks) with Check fields computed by Python (zlib / hashlib / a bitwise
+        CRC-64): SHA-256 at every payload length residue mod 64, CRC32/CRC64 at every residue mod 16, single and two Blocks;
+    (ii) Streams from the real encoder over incompressible data (so the payload bytes are the data bytes) at the lengths
+        where SHA-256 padding spills into a second block (size mod 64 = 55..63) and around them.
+    Each record carries `tail_ranges`: per Block the byte range of the file whose last 64 bytes are to be damaged."""
+    rng = ctx.rng
+    out = []
+    sha_lens = list(range(64, 128)) if quick else list(range(0, 192)) + [700, 1016, 1087, 2000]
+    crc_lens = list(range(0, 18)) if quick else list(range(0, 40)) + [255, 256, 257, 1000]
+    plan = [(10, n) for n in sha_lens] + [(1, n) for n in crc_lens] + [(4, n) for n in crc_lens] + [(0, 33)]
+    for (check, n) in plan:
+        data = bytes(rng.getrandbits(8) for _ in range(n))
+        blocks = [data] if rng.random() < 0.8 or n < 2 else [data[:n // 3], data[n // 3:]]
+        sb, ranges = L.assemble_xz_stream(blocks, check)
+        f = L.make_xz_file("independent: check=%s len=%d blocks=%d (Python-computed Check, uncompressed chunks)" % (L.CHECK_NAMES[check], n, len(blocks)),
+                           [(sb, data)], [0])
+        f["bcj"] = False
+        f["tail_only"] = True
+        f["tail_ranges"] = ranges
+        out.append(f)
+    xz = xz_bin()
+    for n in ([55, 56, 57, 60, 63, 64, 119, 120, 123, 127] if quick else list(range(48, 72)) + list(range(112, 136)) + [700, 1016, 1087]):
+        data = bytes(rng.getrandbits(8) for _ in range(n))
+        sb = L.run_xz(xz, ["-c", "--check=sha256", "--lzma2=dict=4KiB", "-T1"], data)
+        f = L.make_xz_file("encoder: check=sha256 len=%d incompressible data" % n, [(sb, data)], [0])
+        f["bcj"] = False
+        f["tail_only"] = True
+        f["tail_ranges"] = [(a, b) for (a, b, nme) in f["segs"] if nme == "blk.data"]
+        out.append(f)
+    return out
+
+
+def plan_tail(ctx, fi, f, quick):
+    """The undamaged file must be accepted with the original data (for the hand-assembled files this is the statement
+    "the decoder's check equals the independent implementation's"), and every single-bit flip in the last 64+ bytes of each
+    Block's data and in its Check field must not be accepted with different data."""
+    cfgs = [("sd", 0), ("mt2", 8)] if quick else [("sd", 0), ("mt2", 8), ("sbd", 0), ("auto", 8), ("sd", 8)]
+    spans = []
+    for (a, b) in f["tail_ranges"]:
+        spans.append((max(a, b - 66), b))
+    spans += [(a, b) for (a, b, nme) in f["segs"] if nme == "blk.check"]
+    tasks = []
+    for (api, fl) in cfgs:
+        ops, descs = ["one %s %d w" % (api, fl)], [(api, fl, "w", 0, None)]
+        for (a, b) in spans:
+            if b > a:
+                ops.append("flips %s %d %d %d" % (api, fl, 8 * a, 8 * b))
+                descs += [(api, fl, "f", i, None) for i in range(8 * a, 8 * b)]
+        tasks.append((fi, ops, descs))
+    return tasks
+
+
 STREAM_APIS_BY_FMT = {"xz": [("sd", 8), ("sd", 0), ("mt2", 8), ("mt4", 0), ("auto", 8)],
                       "lzma": [("alone", 0), ("auto", 0)],
                       "lz": [("lzip", 8), ("lzip", 0), ("auto", 8)]}
@@ -580,11 +634,16 @@ def run(ctx):
         small = generated_files(ctx, 50, 10)
         legacy = generated_legacy(ctx, 8)
         n_edits = 300
-    files = seeds_x + small + legacy
+    indep = independent_files(ctx, quick)
+    files = seeds_x + small + legacy + indep
     ctx.log("files: %d (%d seeds, %d generated .xz, %d .lzma/.lz) in %.1fs" % (len(files), len(seeds_x), len(small), len(legacy), time.time() - t0))
     tasks = []
     crafted_src = []
     for fi, f in enumerate(files):
+        if f.get("tail_only"):
+            tasks += plan_tail(ctx, fi, f, quick)
+            ctx.count("files:independent-check" if f["name"].startswith("independent") else "files:encoder-incompressible-sha256")
+            continue
         exhaustive = not f.get("large") and len(f["data"]) <= 2048
         tasks += plan_file(ctx, fi, f, exhaustive, n_edits)
         if f["fmt"] == "xz" and exhaustive and not f["name"].startswith("seed:"):
@@ -595,7 +654,7 @@ def run(ctx):
     for (fi, f) in crafted_src:
         tasks += plan_crafted(ctx, files, fi, f)
     # input slicing: systematic splits of the undamaged small files, and damaged Stream Padding in all 2-/3-piece splits
-    smalls = [(fi, f) for fi, f in enumerate(files) if not f.get("large") and not f.get("crafted") and len(f["data"]) <= 2048]
+    smalls = [(fi, f) for fi, f in enumerate(files) if not f.get("large") and not f.get("crafted") and not f.get("tail_only") and len(f["data"]) <= 2048]
     for (fi, f) in smalls if not quick else smalls[:10]:
         tasks += plan_splits(ctx, fi, f)
         ctx.count("files:systematic-splits")
@@ -790,13 +849,128 @@ def run(ctx):
     ctx.cov["truncation_verdicts"] = verdicts
     ctx.cov["correspondence"] = {"compared": compared, "mismatches": n_mism, "model_ran": res_m is not None,
                                  "apis_with_model": sorted(MODEL_APIS), "apis_oracle_only": ["mt2", "mt4"]}
-    # CLI sample
+    # CLI: exit status with several operands (both tiers); damaged-file sample and multi-file runs (thorough)
+    cli_exit_status(ctx, files)
     if not quick:
         cli_stage(ctx, files)
     if ctx.broken and not ctx.violations:
         ctx.cov["search"] = {"direct_oracle_cases": ctx.cov["evaluations"], "failing": 0,
                              "note": "the direct oracle ran on every case above (it does not depend on Lean); nothing it judges failed"}
     return "proof"
+
+
+def cli_exit_status(ctx, files):
+    """(B) The PROCESS exit status is part of "reported as success". One invocation of xz / xzdec over several operands
+    where one is corrupt or truncated and another only produces a WARNING (tests/files/unsupported-check.xz), in both
+    orders, with -Q / -q / -qq / --files, plus a single file that is both unsupported-check and truncated: the exit
+    status must be 1 (error) - never 0, never 2 - and stdout must be, operand by operand, the whole data of the good
+    operands and a prefix of the data of the damaged ones. References: Python lzma / the structural parser, not xz."""
+    import lzma as pylzma, tempfile, shutil
+    rng = ctx.rng
+    xz, xzdec = xz_bin("xz"), xz_bin("xzdec")
+    uc_path = os.path.join(vlib.REPO, "tests", "files", "unsupported-check.xz")
+    if not os.path.exists(uc_path):
+        return 0
+    uc = open(uc_path, "rb").read()
+    try:
+        uc_plain = pylzma.decompress(uc)
+    except Exception:
+        uc_plain = b"Hello\nWorld!\n"
+    goods = [f for f in files if f["fmt"] == "xz" and not f.get("large") and not f.get("crafted") and len(f["plain"]) > 0
+             and all(c in (1, 4, 10) for c in f["checks"])]
+    if not goods:
+        return 0
+    rng.shuffle(goods)
+    root = os.path.join(vlib.CACHE, "c05-cli")
+    os.makedirs(root, exist_ok=True)
+    # operand kinds: (bytes, plaintext, status) with status "ok" | "warn" | "err"
+    def damaged(f):
+        # only damage that every correct decoder must reject: a cut inside the first Stream, or a bit flip in a field
+        # outside the compressed payload
+        e1 = f["units"][0][1]
+        if rng.random() < 0.5:
+            return f["data"][:rng.randrange(12, e1 - 1)], "truncated inside the first Stream"
+        seg = rng.choice([sg for sg in f["segs"] if sg[2] in ("blk.check", "idx.crc32", "ftr.crc32", "blk.hdr.crc32", "ftr.magic", "idx.records")])
+        bit = rng.randrange(8 * seg[0], 8 * seg[1])
+        b = bytearray(f["data"]); b[bit // 8] ^= 1 << (bit % 8)
+        return bytes(b), "bit flip in " + seg[2]
+    scen = []
+    for f in goods[:4 if ctx.quick() else 12]:
+        dam, how = damaged(f)
+        bad = (dam, f["plain"], "err", how)
+        warn = (uc, uc_plain, "warn", "unsupported-check.xz")
+        good = (f["data"], f["plain"], "ok", "undamaged")
+        scen += [[bad, warn], [warn, bad], [good, bad, warn], [warn, good, bad], [bad, good]]
+    for cut in (len(uc) - 1, len(uc) - 8, len(uc) - 13, 24, 40):
+        scen.append([(uc[:cut], uc_plain, "err", "unsupported-check.xz truncated to %d" % cut)])
+        scen.append([(uc[:cut], uc_plain, "err", "unsupported-check.xz truncated to %d" % cut), (uc, uc_plain, "warn", "unsupported-check.xz")])
+    modes = [("xz", ["-dcQ"]), ("xz", ["-tQ"]), ("xz", ["-dc"]), ("xz", ["-t"]), ("xz", ["-dcq"]), ("xz", ["-dcqq"]), ("xz", ["-dcQq"]),
+             ("xz", ["-tqq"]), ("xz-files", ["-dcQ"]), ("xz-files", ["-t"]), ("xzdec", []), ("xzdec", ["-q"])]
+
+    def prefix_concat_ok(out, ops):
+        # out must be op1' + op2' + ... with op' == plaintext for non-"err" operands and a prefix of it for "err" ones
+        def rec(pos, k):
+            if k == len(ops):
+                return pos == len(out)
+            _, plain, st, _ = ops[k]
+            if st != "err":
+                return out[pos:pos + len(plain)] == plain and rec(pos + len(plain), k + 1)
+            m = 0
+            while m <= len(plain) and out[pos:pos + m] == plain[:m]:
+                if rec(pos + m, k + 1):
+                    return True
+                m += 1
+            return False
+        return rec(0, 0)
+
+    def run(job):
+        ops, (tool, flags) = job
+        d = tempfile.mkdtemp(prefix="x", dir=root)
+        try:
+            names = []
+            for k, (data, _, _, _) in enumerate(ops):
+                nme = "op%d.xz" % k
+                with open(os.path.join(d, nme), "wb") as fh:
+                    fh.write(data)
+                names.append(nme)
+            if tool == "xzdec":
+                argv = [xzdec] + flags + names
+            elif tool == "xz-files":
+                with open(os.path.join(d, "list"), "w") as fh:
+                    fh.write("\n".join(names) + "\n")
+                argv = [xz] + flags + ["--files=list"]
+            else:
+                argv = [xz] + flags + names
+            p = subprocess.run(argv, cwd=d, stdout=subprocess.PIPE, stderr=subprocess.PIPE)
+            return p.returncode, p.stdout, p.stderr.decode("utf-8", "replace")[-600:], argv
+        finally:
+            shutil.rmtree(d, ignore_errors=True)
+    jobs = [(ops, m) for ops in scen for m in modes]
+    results = vlib.par_map(run, jobs)
+    bad = 0
+    for (ops, (tool, flags)), (rc, so, se, argv) in zip(jobs, results):
+        has_err = any(o[2] == "err" for o in ops)
+        testing = any("t" in fl.lstrip("-") and not fl.startswith("--") for fl in flags)
+        ctx.case(("cli-exit", tool, tuple(flags), tuple(o[3] for o in ops)), True)
+        ctx.count("cli-exit:%s:exit%d" % (tool.split("-")[0], rc if rc in (0, 1, 2) else 99))
+        problem = None
+        if has_err and rc != 1:
+            problem = "exit status %d although an operand is corrupt/truncated (must be 1)" % rc
+        elif not testing and tool != "xzdec" and not prefix_concat_ok(so, ops):
+            problem = "stdout is not the data of the good operands plus prefixes of the damaged ones"
+        elif tool == "xzdec" and not prefix_concat_ok(so, ops[:1 + next((k for k, o in enumerate(ops) if o[2] == "err"), len(ops))]):
+            # (xzdec exits at the first operand that fails; later operands are not decoded)
+            problem = "stdout is not the data of the good operands plus prefixes of the damaged ones"
+        if problem:
+            bad += 1
+            if bad <= 4:
+                ctx.violation("cli-exit-status", {
+                    "kind": problem, "argv": [os.path.basename(argv[0])] + argv[1:], "exit_status": rc, "stderr": se,
+                    "operands": [{"name": "op%d.xz" % k, "what": o[3], "expected": o[2], "hex": o[0].hex()} for k, o in enumerate(ops)],
+                    "stdout_hex": so.hex()[:4000],
+                    "how_to_replay": "write the operands to op<k>.xz in an empty directory and run the argv there with the xz/xzdec of the build"}, True)
+    ctx.cov["cli_exit_status"] = {"invocations": len(jobs), "scenarios": len(scen), "failing": bad}
+    return bad
 
 
 def cli_stage(ctx, files):
